@@ -5,7 +5,7 @@ Property theorems only (helper lemmas live in `PvProofs/Lemmas/Settle*.lean`).  
 for every list of asks and bids, every amount, every ratio; where the Go code can only be entered
 with stored orders (positive amounts, `Order.Validate`) that is an explicit hypothesis.
 -/
-import PvProofs.Lemmas.SettleFilled
+import PvProofs.Lemmas.SettleComplete
 import Mathlib.Tactic.SplitIfs
 
 namespace PvProofs.C01
@@ -292,6 +292,28 @@ theorem fee_formula {asks bids : List Order} {lookup : Denom → Except Err (Opt
     obtain ⟨amt, h1, h2⟩ := this
     exact ⟨amt, h2, fun ha hrp hrf => (ratioFee_is_ceil h1 ha hrp hrf).2.2⟩
 
+/-- The orders `BuildSettlement` fills are the requested orders, in the requested order (asks then
+bids), with the same ids and owners (a split changes only assets, price and fees). -/
+theorem filled_ids {asks bids : List Order} {lookup : Denom → Except Err (Option Ratio)} {p : Plan}
+    (hp : plan asks bids lookup = .ok p) :
+    (Plan.filledOrders p).map (·.order.id) = (asks ++ bids).map (·.id) ∧
+    (Plan.filledOrders p).map (·.order.owner) = (asks ++ bids).map (·.owner) := by
+  obtain ⟨ad, pd, W⟩ := plan_wf hp
+  have e : (Plan.filledOrders p).map (·.order) = p.asks ++ p.bids := by
+    simp only [Plan.filledOrders, List.map_append, zipFilled_map_order _ _ _ _ W.lenAF,
+      zipFilled_map_order _ _ _ _ W.lenBF]
+  have e1 : (Plan.filledOrders p).map (·.order.id) = (p.asks ++ p.bids).map (·.id) := by
+    rw [← e, List.map_map]; rfl
+  have e2 : (Plan.filledOrders p).map (·.order.owner) = (p.asks ++ p.bids).map (·.owner) := by
+    rw [← e, List.map_map]; rfl
+  rw [e1, e2]
+  rcases at_most_one_partial hp with ⟨a, b, _⟩ | ⟨init, o, f, u, a1, a2, a3, _, _, a5⟩ | ⟨init, o, f, u, a1, a2, a3, _, _, a5⟩
+  · rw [a, b]; exact ⟨rfl, rfl⟩
+  · obtain ⟨h1, _, h3, _⟩ := (split_exact a5).2.2.2.1
+    rw [a1, a2, a3]; simp [h1, h3]
+  · obtain ⟨h1, _, h3, _⟩ := (split_exact a5).2.2.2.1
+    rw [a1, a2, a3]; simp [h1, h3]
+
 /-- **`populateFilled` only reorders.**  With distinct order ids, `FullyFilledOrders` followed by
 `PartialOrderFilled` are exactly the orders of the plan; so the account deltas and fee totals can be
 read off the returned `Settlement` alone. -/
@@ -301,5 +323,253 @@ theorem filled_is_reordering {p : Plan} {s : Settlement} (hs : p.settlement = .o
     expectedFees s.filled x d = expectedFees (Plan.filledOrders p) x d := by
   obtain ⟨ta, tb, _, _, _, _, _, _, hpf, _⟩ := settlement_unfold hs
   exact ⟨populateFilled_sum _ _ _ _ hpf hn _, populateFilled_sum _ _ _ _ hpf hn _⟩
+
+/-! ## 3. `closeSettlement` over the bank ledger -/
+
+/-- **Net balance deltas of a settlement** (`closeSettlement`: all transfers, then `CollectFees`).
+Over the shared `Ledger` model, for a settlement built by `BuildSettlement` from orders with distinct
+ids, and *every* account `x` and denom `d`:
+
+* `x`'s balance changes by what its filled orders say (`expectedDelta`: asks `− assets + received`,
+  bids `+ assets − price`) minus the fees of its orders, plus — if `x` is the market account — all
+  fees minus the exchange's share, plus — if `x` is the fee collector — the exchange's share;
+* the exchange's share of a denom is `CalculateExchangeSplit` of the **total** fees of that denom;
+* total supply of every denom is unchanged (no coins created or destroyed). -/
+theorem closeSettlement_deltas {asks bids : List Order} {lookup : Denom → Except Err (Option Ratio)} {p : Plan}
+    {s : Settlement} (hp : plan asks bids lookup = .ok p) (hs : p.settlement = .ok s)
+    (hid : ((asks ++ bids).map (·.id)).Nodup)
+    {market collector : Addr} {split : Denom → Nat} {L : Ledger}
+    (hc : closeSettlement market collector split s = .ok L) :
+    ∃ ex : Coins,
+      (∀ d, ∃ r, Fees.exchangeSplitCoin (totalFees s.filled d) (split d) = .ok r ∧ amountOf ex d = r.getD 0) ∧
+      (∀ x d, bal L x d = expectedDelta s.filled x d - expectedFees s.filled x d
+          + (if market = x then totalFees s.filled d - amountOf ex d else 0)
+          + (if collector = x then amountOf ex d else 0)) ∧
+      (∀ d, supply L d = 0) := by
+  have hn : ((Plan.filledOrders p).map (·.order.id)).Nodup := by rw [(filled_ids hp).1]; exact hid
+  obtain ⟨ad, pd, W⟩ := plan_wf hp
+  obtain ⟨ta, tb, _, _, _, _, _, hf, hpf, _⟩ := settlement_unfold hs
+  unfold closeSettlement collectFees at hc
+  split at hc; · simp at hc
+  rename_i fl hfl
+  split at hfl; · simp at hfl
+  rename_i ex hex
+  simp only [Except.ok.injEq] at hfl hc
+  subst hfl hc
+  have htot : ∀ d, amountOf s.feeInputs.total d = totalFees s.filled d := by
+    intro d
+    rw [hf, total_indexFees p.bids (filledB p.trP) p.bidFees 0 W.lenBF,
+      total_indexFees p.asks (filledA p.trP) p.askFees 0 W.lenAF]
+    have := populateFilled_sum _ _ _ _ hpf hn (fun f => amountOf f.actualFees d)
+    simp only [totalFees, Settlement.filled]
+    rw [this]
+    simp [Plan.filledOrders]
+  refine ⟨ex, ?_, ?_, ?_⟩
+  · intro d
+    obtain ⟨r, h1, h2⟩ := exchangeSplit_spec hex d
+    exact ⟨r, by rw [← htot d]; exact h1, h2⟩
+  · intro x d
+    obtain ⟨e1, e2⟩ := filled_is_reordering hs hn x d
+    have h1 := account_deltas hp hs x d
+    have h2 := fee_inputs_exact hp hs x d
+    unfold transfersNet at h1
+    simp only [bal_append, bal_debits, ← amountFor_eq_bal, bal_entries, amountOf_neg, h1, h2, e1, e2, htot d]
+    split <;> split <;> omega
+  · intro d
+    have := bal_flatMap_ledger_supply s.transfers (transfers_balanced hs) d
+    simp only [supply_append, supply_debits, supply_entries, amountOf_neg, this]
+    omega
+
+/-- **Nobody else is touched.**  An account that owns none of the settled orders and is neither the
+market account nor the fee collector has every balance unchanged. -/
+theorem closeSettlement_only_parties {asks bids : List Order} {lookup : Denom → Except Err (Option Ratio)} {p : Plan}
+    {s : Settlement} (hp : plan asks bids lookup = .ok p) (hs : p.settlement = .ok s)
+    (hid : ((asks ++ bids).map (·.id)).Nodup)
+    {market collector : Addr} {split : Denom → Nat} {L : Ledger}
+    (hc : closeSettlement market collector split s = .ok L)
+    (x : Addr) (hx : ∀ f ∈ s.filled, f.order.owner ≠ x) (hm : market ≠ x) (hcol : collector ≠ x) (d : Denom) :
+    bal L x d = 0 := by
+  obtain ⟨ex, _, h2, _⟩ := closeSettlement_deltas hp hs hid hc
+  rw [h2 x d, expectedDelta_not_owner _ x d hx, expectedFees_not_owner _ x d hx, if_neg hm, if_neg hcol]
+  rfl
+
+/-! ## 4. `allocatePrice` terminates, never panics, and is exact; the final validation cannot fail -/
+
+/-- **`allocatePrice` is total and exact** (for all lists of positive prices / filled amounts).
+It can only return "total ask price greater than total bid price" or die of a 256-bit overflow in
+`totalLeftover·assets` — the `bidOFs[b]` index panic of the first pass, the "no bid orders left to
+allocate leftovers from" panic and the model's fuel bound are all unreachable (so the leftover loop
+terminates: `askFilled.length + totalLeftover + 2` rounds suffice).  When it succeeds, every bid pays
+exactly its price, every ask receives at least its price, every distribution is positive. -/
+theorem allocatePrice_total_and_exact {ap bp af : List Int}
+    (hap : ∀ y ∈ ap, 0 < y) (hbp : ∀ y ∈ bp, 0 < y) (haf : ∀ y ∈ af, 0 < y)
+    (hlen : af.length = ap.length) (hn : 0 < ap.length) :
+    (∀ e, allocatePrice ap bp af = .error e → e = .askGtBid ∨ e = .overflow) ∧
+    (∀ t, allocatePrice ap bp af = .ok t →
+      (∀ j, filledB t j = bp.getD j 0) ∧ (∀ k, ap.getD k 0 ≤ filledA t k) ∧ (∀ e ∈ t, 0 < e.amt)) := by
+  obtain ⟨h1, h2⟩ := allocatePrice_spec hap hbp haf hlen hn
+  refine ⟨h1, fun t ht => ?_⟩
+  obtain ⟨a, b, c⟩ := h2 t ht
+  exact ⟨fun j => by rw [a j, slot_zero_eq], fun k => by rw [← slot_zero_eq]; exact b k, c⟩
+
+/-- **The final validation cannot fail.**  For stored orders (positive amounts) and a valid ratio, once
+`BuildSettlement` got past `setFeesToPay` it succeeds: `validateFulfillments` ("price … is more than /
+not equal to price filled", "assets … does not equal filled assets"), the positivity checks of
+`getAssetTransfer`/`getPriceTransfer` and the negative-fee check of `buildTransfers` are unreachable.
+(So a settlement is rejected only for the documented reasons: bad request shape, an order that would
+be left partially filled but may not be, indivisible split, ask total above bid total, ratio lookup
+errors — or a 256-bit overflow.) -/
+theorem final_validation_never_fails {asks bids : List Order} {lookup : Denom → Except Err (Option Ratio)} {p : Plan}
+    (hp : plan asks bids lookup = .ok p) (hv : ∀ o ∈ asks ++ bids, orderValid o = true)
+    (hr : ∀ r, lookup (p.asks.headD default).priceDenom = .ok (some r) → 0 < r.priceAmt ∧ 0 ≤ r.feeAmt) :
+    ∃ s, p.settlement = .ok s := by
+  obtain ⟨left1, ratio, h1, h2, h3, h4, h5, h6, h7, h8⟩ := plan_unfold hp
+  obtain ⟨ad, pd, W⟩ := plan_wf hp
+  obtain ⟨posA, asA⟩ := splitOrderFulfillments_pos h3 (fun o ho => orderPos_of_valid (hv o (by simp [ho])))
+  obtain ⟨posB, asB⟩ := splitOrderFulfillments_pos h4 (fun o ho => orderPos_of_valid (hv o (by simp [ho])))
+  simp only [Nat.zero_add] at asA asB
+  -- allocatePrice is exact
+  have hap : AllPos (p.asks.map (·.price)) := by
+    intro y hy
+    obtain ⟨o, ho, rfl⟩ := List.mem_map.mp hy
+    exact (posA o ho).price
+  have hbp : AllPos (p.bids.map (·.price)) := by
+    intro y hy
+    obtain ⟨o, ho, rfl⟩ := List.mem_map.mp hy
+    exact (posB o ho).price
+  have haf : AllPos ((List.range p.asks.length).map (filledA p.trA)) := by
+    intro y hy
+    obtain ⟨k, hk, rfl⟩ := List.mem_map.mp hy
+    have hk' : k < p.asks.length := by simpa using hk
+    have hget : p.asks[k]? = some p.asks[k] := List.getElem?_eq_getElem hk'
+    rw [← asA k _ hget]
+    exact (posA _ (List.getElem_mem hk')).assets
+  obtain ⟨_, hok⟩ := allocatePrice_spec hap hbp haf (by simp) (by simpa using W.posA)
+  obtain ⟨pB, pA, pamt⟩ := hok p.trP h5
+  -- validateFulfillments
+  have v1 : validateSide true (filledA p.trP) (filledA p.trA) 0 p.asks = .ok () := by
+    apply validateSide_of
+    intro k o hk
+    simp only [Nat.zero_add]
+    refine ⟨fun _ => ?_, fun h => by simp at h, asA k o hk⟩
+    have := pA k
+    rwa [slot_zero_map p.asks (·.price) k o hk] at this
+  have v2 : validateSide false (filledB p.trP) (filledB p.trA) 0 p.bids = .ok () := by
+    apply validateSide_of
+    intro k o hk
+    simp only [Nat.zero_add]
+    refine ⟨fun h => by simp at h, fun _ => ?_, asB k o hk⟩
+    have := pB k
+    rw [slot_zero_map p.bids (·.price) k o hk] at this
+    exact this.symm
+  -- buildTransfers
+  have hfeesA : ∀ f ∈ p.askFees, NonnegFees f := by
+    intro f hf
+    obtain ⟨k, hk, rfl⟩ := List.getElem_of_mem hf
+    have hk' : k < p.asks.length := by rw [← W.lenAF]; exact hk
+    have hget : p.asks[k]? = some p.asks[k] := List.getElem?_eq_getElem hk'
+    have hpo := posA _ (List.getElem_mem hk')
+    have := askFeesToPay_spec h7 k _ hget
+    cases ratio with
+    | none =>
+      simp only at this
+      rw [List.getElem?_eq_getElem hk] at this
+      simp only [Option.some.injEq] at this
+      rw [this]; exact hpo.fees
+    | some r =>
+      simp only [Nat.zero_add] at this
+      obtain ⟨amt, e1, e2⟩ := this
+      rw [List.getElem?_eq_getElem hk] at e2
+      simp only [Option.some.injEq] at e2
+      rw [e2]
+      obtain ⟨hrp, hrf⟩ := hr r h6
+      have happ : 0 ≤ filledA p.trP k := by
+        have := pA k
+        rw [slot_zero_map p.asks (·.price) k _ hget] at this
+        have := hpo.price
+        omega
+      obtain ⟨_, _, hceil⟩ := ratioFee_is_ceil e1 happ hrp hrf
+      have hamt : 0 ≤ amt := isCeilDiv_nonneg hrp (Int.mul_nonneg happ hrf) hceil
+      intro x hx
+      simp only [List.mem_append, List.mem_singleton] at hx
+      rcases hx with hx | rfl
+      · exact hpo.fees x hx
+      · exact hamt
+  have hfeesB : ∀ f ∈ p.bidFees, NonnegFees f := by
+    intro f hf
+    rw [h8] at hf
+    obtain ⟨o, ho, rfl⟩ := List.mem_map.mp hf
+    exact (posB o ho).fees
+  obtain ⟨ta, hta⟩ := recordSide_of (getter := getAssetTransfer p.trA p.bids) (i := 0) (os := p.asks) (fees := p.askFees)
+    (fun k o hk => by
+      simp only [Nat.zero_add]
+      apply getAssetTransfer_ok _ W.amtA
+      rw [← asA k o hk]; exact (posA o (List.mem_of_getElem? hk)).assets) hfeesA
+  obtain ⟨tb, htb⟩ := recordSide_of (getter := getPriceTransfer p.trP p.asks) (i := 0) (os := p.bids) (fees := p.bidFees)
+    (fun k o hk => by
+      simp only [Nat.zero_add]
+      apply getPriceTransfer_ok _ pamt
+      rw [pB k, slot_zero_map p.bids (·.price) k o hk]; exact (posB o (List.mem_of_getElem? hk)).price) hfeesB
+  unfold Plan.settlement
+  rw [v1, v2, hta, htb]
+  exact ⟨_, rfl⟩
+
+
+/-! ## 5. Non-vacuity
+
+One concrete request on which every hypothesis used above holds and every branch of interest is
+taken: 2 asks / 3 bids, the last bid partially filled (split 5 of 10), seller ratio 1000:3, a flat fee
+in the price denom, account `X1` on both sides, leftover price distributed (116 and 58 for asks of 100
+and 50).  (The same request is in `corpus/C01/settle.examples.ops`, where it runs on the real code.) -/
+
+def exAsks : List Order :=
+  [⟨1, true, "S1", "apple", 10, "usd", 100, [("usd", 2)], false⟩,
+   ⟨2, true, "X1", "apple", 5, "usd", 50, [("fig", 1)], true⟩]
+def exBids : List Order :=
+  [⟨11, false, "B1", "apple", 6, "usd", 66, [("fig", 3)], false⟩,
+   ⟨12, false, "X1", "apple", 4, "usd", 48, [], false⟩,
+   ⟨13, false, "B2", "apple", 10, "usd", 120, [("fig", 10), ("usd", 20)], true⟩]
+def exLookup : Denom → Except Err (Option Ratio) := fun _ => .ok (some ⟨"usd", 1000, "usd", 3⟩)
+
+
+/-- the request is in the domain of the property (stored orders, distinct ids) -/
+example : inDomain exAsks exBids = true := by decide
+
+/-- the ratio is valid -/
+example : ∀ r, exLookup "usd" = .ok (some r) → 0 < r.priceAmt ∧ 0 ≤ r.feeAmt := by
+  intro r h; simp only [exLookup, Except.ok.injEq, Option.some.injEq] at h; subst h; decide
+
+/-- `BuildSettlement` succeeds on it, with a partial order left and the leftover price distributed -/
+example : (match buildSettlement exAsks exBids exLookup with
+    | .ok s => s.partialLeft == some ⟨13, false, "B2", "apple", 5, "usd", 60, [("fig", 5), ("usd", 10)], true⟩
+        && s.fullyFilled.map (fun f => (f.order.id, f.actualPrice, Coins.canon f.actualFees)) ==
+            [(1, 116, [("usd", 3)]), (2, 58, [("fig", 1), ("usd", 1)]), (11, 66, [("fig", 3)]), (12, 48, [])]
+    | .error _ => false) = true := by decide
+
+/-- the split of its last bid succeeds and satisfies the split checker (hypothesis of `split_exact`) -/
+example : (match exBids with
+    | [_, _, b3] => (match b3.split 5 with
+        | .ok (f, u) => f.price == 60 && u.price == 60 && splitViolation b3 5 f u == none
+        | .error _ => false)
+    | _ => false) = true := by decide
+
+/-- `closeSettlement` succeeds on it (5 % exchange split): `X1`, seller of 5 and buyer of 4, nets
+`+58 − 48 − 1` usd; the market keeps the fees minus the exchange's rounded-up share; supply unchanged -/
+example : (match plan exAsks exBids exLookup with
+    | .ok p => (match p.settlement with
+      | .ok s => (match closeSettlement "mkt" "feecol" (fun _ => 500) s with
+        | .ok L => bal L "X1" "usd" == 58 - 48 - 1 && bal L "mkt" "usd" == 14 - 1 && bal L "feecol" "usd" == 1
+            && bal L "feecol" "fig" == 1 && supply L "usd" == 0 && bal L "nobody" "usd" == 0
+        | .error _ => false)
+      | .error _ => false)
+    | .error _ => false) = true := by decide
+
+/-- `allocatePrice_total_and_exact`'s hypotheses hold for the example's prices (and the leftover loop
+is entered: 174 > 150) -/
+example : allocatePrice [100, 50] [66, 48, 60] [10, 5] =
+    .ok [⟨0, 0, 66⟩, ⟨0, 1, 34⟩, ⟨1, 1, 14⟩, ⟨1, 2, 36⟩, ⟨0, 2, 16⟩, ⟨1, 2, 8⟩] := by decide
+
+/-- an overflow is possible (the only way `allocatePrice` can die): leftover `2^200`, assets `2^100` -/
+example : allocatePrice [1] [1 + 2 ^ 200] [2 ^ 100] = .error .overflow := by decide
 
 end PvProofs.C01
